@@ -555,4 +555,70 @@ theorem prod_dvolAt_eq_prodZip [Field K] : ∀ (subs : List (SubDom K)) (idx : I
 
 end TotalVolume
 
+/-! ### MultiField -/
+section Multi
+variable {K : Type} {α : Type}
+
+theorem zipLeaves_spec (op : Fld K → Fld K → Except String (Fld K)) :
+    ∀ (la lb r : List (String × Fld K)), zipLeaves op la lb = .ok r →
+      List.Forall₂ (fun (ab : (String × Fld K) × (String × Fld K)) (c : String × Fld K) =>
+        c.1 = ab.1.1 ∧ op ab.1.2 ab.2.2 = .ok c.2) (la.zip lb) r := by
+  intro la
+  induction la with
+  | nil =>
+    intro lb r h
+    simp only [zipLeaves, Except.ok.injEq] at h
+    subst h
+    simp
+  | cons a ta ih =>
+    intro lb r h
+    cases lb with
+    | nil =>
+      simp only [zipLeaves, Except.ok.injEq] at h
+      subst h
+      simp
+    | cons b tb =>
+      obtain ⟨ka, fa⟩ := a
+      obtain ⟨kb, fb⟩ := b
+      simp only [zipLeaves] at h
+      cases ho : op fa fb with
+      | error e => simp only [ho] at h; cases h
+      | ok r0 =>
+        simp only [ho] at h
+        cases hz : zipLeaves op ta tb with
+        | error e => simp only [hz] at h; cases h
+        | ok t =>
+          simp only [hz, Except.ok.injEq] at h
+          subst h
+          simp only [List.zip_cons_cons]
+          exact List.Forall₂.cons ⟨rfl, ho⟩ (ih tb t hz)
+
+/-- all entries of all leaves, in key order: the concatenated array the MultiField stands for -/
+def mentries (a : MFld K) : List K := a.leaves.flatMap fun kv => (allIdx kv.2.sizes).map kv.2.val
+
+theorem maxOver_nonneg [LinearOrder K] [Zero K] (l : List α) (f : α → K) : (0 : K) ≤ maxOver max l f := by
+  induction l with
+  | nil => simp [maxOver]
+  | cons a t ih => simp only [maxOver]; exact le_trans ih (le_max_right _ _)
+
+theorem maxOver_append [LinearOrder K] [Zero K] (l₁ l₂ : List α) (f : α → K) :
+    maxOver max (l₁ ++ l₂) f = max (maxOver max l₁ f) (maxOver max l₂ f) := by
+  induction l₁ with
+  | nil => simp only [List.nil_append, maxOver]; exact (max_eq_right (maxOver_nonneg l₂ f)).symm
+  | cons a t ih => simp only [List.cons_append, maxOver, ih, max_assoc]
+
+theorem maxOver_map [LinearOrder K] [Zero K] {β : Type} (l : List β) (g : β → α) (f : α → K) :
+    maxOver max (l.map g) f = maxOver max l (fun b => f (g b)) := by
+  induction l with
+  | nil => rfl
+  | cons a t ih => simp only [List.map_cons, maxOver, ih]
+
+theorem maxOver_flatMap [LinearOrder K] [Zero K] {β : Type} (l : List β) (g : β → List α) (f : α → K) :
+    maxOver max (l.flatMap g) f = maxOver max l (fun b => maxOver max (g b) f) := by
+  induction l with
+  | nil => rfl
+  | cons a t ih => simp only [List.flatMap_cons, maxOver_append, maxOver, ih]
+
+end Multi
+
 end NiftyVerif.FieldM
